@@ -248,7 +248,7 @@ WWrite(o) ==
           \* the error is logged: the transaction is known not to be persisted (unless another copy is or will be)
           /\ owed' = IF wcur \in Range(wlog) \/ wcur \in Range(wq) THEN owed ELSE owed \ {wcur}
      ELSE /\ nfail' = nfail /\ owed' = owed
-          /\ IF (DedupFix /\ dn[wcur] # Absent) \/ (Mutant = "skipwrite" /\ dl = 1)
+          /\ IF (DedupFix /\ dn[wcur] # Absent) \/ (Mutant = "skipwrite" /\ wcur = 2)
              THEN UNCHANGED <<Db, wlog>>                       \* already in the log: skipped
              ELSE LET w == Written(wcur) IN
                   /\ dh' = w.h /\ dt' = w.t /\ dn' = w.n
